@@ -91,6 +91,18 @@ theorem every_reachable_index_bounded (T : List (Str × Str × List (Str × Str)
     (h : ReachableIndex T refs) : refs.length ≤ T.length :=
   reachable_index_bounded T refs h
 
+/-- The references of an index come back from the JSON store exactly as they were written — also when
+    an identifier, a Vary value or a recorded selecting value is not valid UTF-8 (obs-text in a header
+    value, raw bytes in a query). Without this the reference being stored never equals the one read
+    back and the index grows by one reference per request (the defect repaired by f2fdf96).
+    `validUtf8`, `b64`, `unb64` stand for unicode/utf8.ValidString and encoding/base64; that
+    encoding/json carries valid UTF-8 unchanged is the remaining glue. -/
+theorem index_strings_survive_json (validUtf8 : Str → Bool) (b64 : Str → Str) (unb64 : Str → Option Str)
+    (hb : ∀ x, unb64 (b64 x) = some x) (hv : ∀ x, validUtf8 (jsonOpaquePrefix ++ b64 x) = true) (s : Str) :
+    jsonOriginalString unb64 (jsonSafeString validUtf8 b64 s) = s ∧
+    validUtf8 (jsonSafeString validUtf8 b64 s) = true :=
+  ⟨index_string_roundtrip validUtf8 b64 unb64 hb s, index_string_is_json_safe validUtf8 b64 hv s⟩
+
 /-- non-vacuity (a test): an index reached by two stores of the same variant and one of another -/
 example : ReachableIndex [((str% "k#0"), [], []), ((str% "k#1"), (str% "X-A"), [((str% "X-A"), (str% "1"))])]
     (dedupeRefs (placeRef (dedupeRefs (placeRef [] none ⟨(str% "k#0"), [], [], none⟩).1 (placeRef [] none ⟨(str% "k#0"), [], [], none⟩).2 ⟨(str% "k#0"), [], [], none⟩) none ⟨(str% "k#0"), [], [], none⟩).1
